@@ -129,7 +129,7 @@ CLAIMED = {
    technique='static analysis: must-reset dataflow and receiver/Freeze effect analysis over rustc MIR',
    ref='DESIGN.md section 2, C09'),
  'C10': dict(level='proof',
-   text='Refusal, reset and independence clauses proved on the MIR: (GD-2) Traceback::traceback_at reaches _traceback_at only on an edge equivalent (as polynomials) to pos + 2 <= self.pos, else None; (PO-7) the arithmetic on the caller-supplied end position cannot panic or wrap - this found hit_at(usize::MAX) being answered from stale columns in release builds, repaired in /repo; (EF-3) the four lazy *_at queries of both instantiations reach the traceback only through that guarded entry; (EF-8) they read no field that next() mutates other than the stored columns, so answers for searched ends do not depend on the search cursor; (GD-3) FullMatches::{start,path_reverse,alignment} run the traceback only when unsuccessfully_finished is false; (TS-5) both Matches constructors pass the state store through Traceback::new, which resizes it on both branches, then writes the sentinel column, then the first state; Traceback is constructed nowhere else; (TB-9) Subst/Ins/Del/Match each behind their own test; (TS-11) update_aln writes all eight coordinate fields of the caller's Alignment on every path; (RI-6) the eager path_reverse clears the caller's operations vector before the traceback. Validity of paths, ring-buffer wrap-around and equality of block-based and single-word alignments are NOT decided.',
+   text='Refusal, reset and independence clauses proved on the MIR: (GD-2) Traceback::traceback_at reaches _traceback_at only on an edge equivalent (as polynomials) to pos + 2 <= self.pos, else None; (PO-7) the arithmetic on the caller-supplied end position cannot panic or wrap - this found hit_at(usize::MAX) being answered from stale columns in release builds, repaired in /repo; (EF-3) the four lazy *_at queries of both instantiations reach the traceback only through that guarded entry; (EF-8) they read no field that next() mutates other than the stored columns, so answers for searched ends do not depend on the search cursor; (GD-3) FullMatches::{start,path_reverse,alignment} run the traceback only when unsuccessfully_finished is false; (TS-5) both Matches constructors pass the state store through Traceback::new, which resizes it on both branches, then writes the sentinel column, then the first state; Traceback is constructed nowhere else; (TB-9) Subst/Ins/Del/Match each behind their own test; (TS-11) update_aln writes all eight coordinate fields of the caller-supplied Alignment on every path; (RI-6) the eager path_reverse clears the caller-supplied operations vector before the traceback. Validity of paths, ring-buffer wrap-around and equality of block-based and single-word alignments are NOT decided.',
    note='Trusted: rustc MIR, extractor, call graph; impl_myers! is analysed in both instantiations (simple, long).',
    technique='static analysis: guard dominance, who-may-call over the call graph, must-pass-through ordering over rustc MIR',
    ref='DESIGN.md section 2, C10'),
